@@ -172,21 +172,37 @@ def _infer_hint_factory_collection_builtin(cls: type) -> Optional[object]:
     # all builtin collection types.
     types_collection_builtin = types & _COLLECTION_BUILTIN_TYPES
 
-    # Return either...
-    return (
-        # If this intersection is non-empty, this class subclasses one or more
-        # builtin collection types. In this case, reduce to this class as is.
-        # Since *ALL* builtin containers types are PEP 585-compliant
-        # subscriptable type hint factories under Python >= 3.9 (e.g.,
-        # "list[str]") and since this class subclasses a builtin container type,
-        # this subclass is necessarily also implicitly a PEP 585-compliant
-        # subscriptable type hint factory.
-        cls
-        if types_collection_builtin else
-        # Else, this intersection is empty, implying this class does *NOT*
-        # subclass a builtin collection type. In this case, reduce to a noop.
-        None
-    )
+    # If this intersection is empty, this class does *NOT* subclass a builtin
+    # collection type. In this case, reduce to a noop.
+    if not types_collection_builtin:
+        return None
+    # Else, this intersection is non-empty, implying this class subclasses one
+    # or more builtin collection types.
+
+    # If this class is a PEP 585-compliant subscriptable type hint factory,
+    # reduce to this class as is. Since most builtin containers types are
+    # subscriptable under Python >= 3.9 (e.g., "list[str]"), most subclasses of
+    # those types are also implicitly subscriptable.
+    if hasattr(cls, '__class_getitem__'):
+        return cls
+    # Else, this class is unsubscriptable. Although uncommon, C-based subclasses
+    # of the unsubscriptable builtin dictionary view types exist (e.g., the
+    # "odict_keys" type of the "collections.OrderedDict.keys()" view, which
+    # subclasses the "dict_keys" type).
+
+    # For each superclass of this class in method resolution order (MRO)...
+    for cls_base in cls.__mro__:
+        # Hint factory describing this superclass if this superclass is a
+        # builtin collection type *OR* "None" otherwise.
+        hint_factory = _COLLECTION_BUILTIN_TYPE_TO_HINT_FACTORY_get(cls_base)
+
+        # If this superclass is a builtin collection type, return the hint
+        # factory describing the nearest such superclass.
+        if hint_factory:
+            return hint_factory
+
+    # Return "None" as a fallback. (This should *NEVER* happen.)
+    return None  # pragma: no cover
 
 # ....................{ PRIVATE ~ mappings                 }....................
 #FIXME: Also add:
